@@ -18,7 +18,7 @@ from ..core import Harness
 
 LEVEL = "exploration"
 
-MODULES = ["c01", "c02", "c03", "c04", "c05_zz", "c05_pp", "c06", "c08", "c10", "c11", "c12", "c13", "c16", "c17", "c09_args"]
+MODULES = ["c01", "c02", "c03", "c04", "c05_zz", "c05_pp", "c06", "c08", "c10", "c11", "c12", "c13", "c16", "c17", "c09_args", "c07_misc"]
 SANITIZER_PREFIXES = ("asan:", "ubsan:", "assert:", "signal:", "fill-diff:", "memcheck:")
 
 
